@@ -1,6 +1,7 @@
 import CarModel.Proofs.Finalize
 import CarModel.Proofs.IndexGen
 import CarModel.RootReader
+import CarModel.Proofs.RootRoundtrip
 /-
 C01 — Round-trip: every writer's output reads back identically via every reader.
 Writers are the `Store` machine (blockstore.ReadWrite, storage.StorageCar incl. the stream and
@@ -69,6 +70,21 @@ theorem roundtrip_v2 (H : HashFn) (ro : ReadOpts) (o : WOpts) (roots : Option (L
   obtain ⟨evs, he, hf⟩ := finalize_file o roots s log ix inv hopen hv2 hix h64
   exact ⟨evs, he, by rw [hf]; exact scanBlockReader_v2 H ro seek o.dataPad o.indexPad roots log true o.storeIdentity ix.bytes ok h10 lok⟩
 
+/-- The root module's reader (`car.NewCarReader` + `Next`, what `LoadCar` feeds its store; stdlib varint
+    decoder, fixed 32 MiB limit, `CidFromReader`): CARv1 mode, any put history — the finished file reads
+    back as the roots and exactly the stored blocks in order, clean EOF. -/
+theorem roundtrip_root_reader (H : HashFn) (o : WOpts) (roots : Option (List Cid)) (s : Store) (log : List Block)
+    (inv : Inv o roots s log) (hopen : s.finalized = false ∧ s.closed = false) (hv1 : o.v1 = true)
+    (hwf : (CarHeader.mk roots 1).wf) (hmax : (encodeHeaderBody ⟨roots, 1⟩).length ≤ rootMaxSection)
+    (hok : ∀ b ∈ log, b.rootOk ∧ checkBlock H false b = .ok ()) :
+    scanRoot H false s.file = .ok ⟨roots.getD [], log, .eof⟩ := by
+  obtain ⟨_, ⟨h40, tail, _, hf, ht⟩, _, _, _⟩ := inv
+  have := ht hopen.1 hopen.2
+  subst this
+  have hfile : s.file = payload roots log := by rw [hf]; simp [WOpts.filePrefix, hv1]
+  rw [hfile]
+  exact scanRoot_payload H false roots log hwf hmax (by intro h; cases h) hok
+
 /-- The same payload through index generation: `LoadIndex` sees exactly the stored sections. -/
 theorem roundtrip_index (kind : SrcKind) (io : IdxOpts) (o : WOpts) (roots : Option (List Cid)) (log : List Block)
     (index : Bytes) (hwf : (CarHeader.mk roots 1).wf) (hmax : (encodeHeaderBody ⟨roots, 1⟩).length ≤ io.maxHeader)
@@ -77,6 +93,11 @@ theorem roundtrip_index (kind : SrcKind) (io : IdxOpts) (o : WOpts) (roots : Opt
     loadIndexRecords kind io (layoutV2 o.dataPad o.indexPad (payload roots log) true o.storeIdentity index)
       = .ok (keptRecords io (headerSize ⟨roots, 1⟩) log) :=
   loadIndexRecords_v2 kind io o.dataPad o.indexPad roots log true o.storeIdentity index hwf hmax h63 h10 lok hok
+
+/-- Non-vacuity of `roundtrip_root_reader`: a concrete sha2-256 block meets the root reader's premises. -/
+example : (⟨⟨1, 0x55, 0x12, List.replicate 32 1⟩, [1, 2]⟩ : Block).rootOk := by
+  refine ⟨Or.inr ⟨rfl, by decide, by decide, by decide⟩, by decide, ?_⟩
+  simp [Cid.byteLen, Cid.bytes, Cid.mhBytes, uvarint_small, rootMaxSection]
 
 /-- Non-vacuity: a concrete header is well-formed. -/
 example : (CarHeader.mk (some [⟨1, 0x55, 0, [1]⟩]) 1).wf := by
